@@ -384,6 +384,16 @@ def run(ck):
                                                          cut_blocks=[c.bb for c in calls])
         ck.decide(ok, "CUT/wrapper-reset", path.replace(Z, "") + ":core", "core reset called on every path",
                   "wrapper reset can return without calling the core reset", where(f))
+    # ---------------- (6) no bitwise duplication through the type system ---------------------------
+    owners = [Z + "deflate::State", Z + "inflate::State", Z + "deflate::DeflateStream", Z + "inflate::InflateStream",
+              Z + "stable::Deflate", Z + "stable::Inflate", Z + "deflate::pending::Pending", Z + "deflate::sym_buf::SymBuf",
+              Z + "inflate::window::Window", Z + "deflate::window::Window", Z + "weak_slice::WeakSliceMut", Z + "inflate::writer::Writer"]
+    for o in owners:
+        if not ck.anchor("adt " + o, P.adt(o)):
+            continue
+        bad = [i for i in P.impls if i["trait"] in ("core::clone::Clone", "core::marker::Copy") and mir.strip_ty(i["for"]) == o]
+        ck.decide(not bad, "WHO/no-clone", o.replace(Z, ""), "neither Clone nor Copy: duplication only through copy()",
+                  "%s implements %s: safe code can make a bitwise duplicate that shares (and double-frees) the allocation" % (o, [b["trait"] for b in bad]))
     ck.call_sites += sum(len(f.calls) for f in (P.fn(p) for p in list(ck.fns_analysed)) if f)
 
 
